@@ -26,6 +26,9 @@ CHECKS = {
     "C07": seq(["TestC07"]),
     "C08": seq(["TestC08Seq"]),
     "C09": seq(["TestC09Seq"]),
+    "C11": seq(["TestC11"], qchecks=60, tchecks=1500),
+    "C12": seq(["TestC12"], qchecks=80, tchecks=1200),
     "C17": seq(["TestC17"]),
     "C18": seq(["TestC18Seq"]),
+    "C19": seq(["TestC19"]),
 }
